@@ -638,7 +638,11 @@ func (x *Exec) evalCall(env *SpecEnv, e *ast.CallExpr) Val {
 				return mkInt(app(SInt, "str.len", v.t))
 			}
 			if mt, ok := under(v.T).(*types.Map); ok {
-				return mkInt(x.mapLen(env.st, v.T, mt, v.t))
+				l := x.mapLen(env.st, v.T, mt, v.t)
+				if x.sc.noDef == 0 {
+					x.sc.assume(and(le(tZero, l), le(l, bigLit("4611686018427387904"))))
+				}
+				return mkInt(l)
 			}
 		}
 		specErr("len of %s", types.ExprString(e.Args[0]))
